@@ -373,3 +373,50 @@ def reparam_scenarios():
     out.append(sc("reparam:other-experiment", "reparam", [[XP("xp1", [J("a", 1, code=4)]), XP("xp2", [J("a_", 1, code=5)]), XP("xp1", [J("a__", 1, code=0)])]],
                   expect_exits={1: [4, 5, 0]}))
     return out
+
+
+def first_handle_scenarios():
+    """A task fails, is submitted again, and a dependent built from the FIRST handle is submitted while the re-submission is
+    waiting / running / over.  Whether that dependent is cancelled or runs is not decided by the statements ("ambiguous");
+    it must reach a final state and the experiment must exit."""
+    W = lambda v: {"op": "wait", "var": v}
+    out = []
+    for kind in ("up", "ups", "holder"):
+        body = [J("a", 1, code=1), W("a"), dict(J("a2", 1, code=0), dup_of="a", after_fail=True), J("b", 2, [("a", kind)]), J("c", 3)]
+        out.append(sc(f"firsthandle:{kind}:running", "firsthandle", [[XP("xp", body)]], ambiguous=[2]))
+        body = [J("a", 1, code=1), W("a"), dict(J("a2", 1, code=0), dup_of="a", after_fail=True), W("a2"), J("b", 2, [("a", kind)]), J("c", 3, [("b", "ups")])]
+        out.append(sc(f"firsthandle:{kind}:over", "firsthandle", [[XP("xp", body)]], ambiguous=[2, 3]))
+        body = [J("a", 1, code=1), W("a"), dict(J("a2", 1, code=1), dup_of="a", after_fail=True), J("b", 2, [("a", kind)]), J("c", 3)]
+        out.append(sc(f"firsthandle:{kind}:fails-again", "firsthandle", [[XP("xp", body)]], ambiguous=[2]))
+    return out
+
+
+def token_again_scenarios():
+    """The same named token used by consecutive experiments of one process (the token object is shared through the per-process
+    registry and keeps the dependencies of the finished experiment)."""
+    out = []
+    for n2 in ("xp", "xp2"):
+        out.append(sc(f"tokagain:{n2}:1;1|1,1", "tokagain", [[XP("xp", [TOK("t", 1), J("a", 1, tok=[("t", 1)])]),
+                                                               XP(n2, [TOK("u", 1), J("b", 2, tok=[("u", 1)]), J("c", 3, tok=[("u", 1)])])]]))
+        out.append(sc(f"tokagain:{n2}:2;2,1|1,2", "tokagain", [[XP("xp", [TOK("t", 2), J("a", 1, tok=[("t", 2)]), J("d", 4, tok=[("t", 1)])]),
+                                                                 XP(n2, [TOK("u", 2), J("b", 2, tok=[("u", 1)]), J("c", 3, tok=[("u", 2)])])]]))
+        out.append(sc(f"tokagain:{n2}:fail", "tokagain:fail", [[XP("xp", [TOK("t", 1), J("a", 1, code=1, tok=[("t", 1)]), J("d", 4, tok=[("t", 1)])]),
+                                                                XP(n2, [TOK("u", 1), J("b", 2, tok=[("u", 1)]), J("c", 3, [("b", "up")], tok=[("u", 1)])])]]))
+    out.append(sc("tokagain:three", "tokagain", [[XP("xp", [TOK("t", 1), J("a", 1, tok=[("t", 1)])]), XP("xp", [TOK("u", 1), J("b", 2, tok=[("u", 1)])]),
+                                                   XP("xp", [TOK("v", 1), J("c", 3, tok=[("v", 1)]), J("d", 4, tok=[("v", 1)])])]]))
+    return out
+
+
+def rerun_scenarios():
+    """A chain succeeded in a first experiment; the directory of its first job is removed and the plan is run again with that job
+    failing this time (the failure is known before its dependents are submitted, or not): jobs that had already succeeded in the
+    earlier run are done, whatever happens to their upstream; their own dependents still run."""
+    W = lambda v: {"op": "wait", "var": v}
+    out = []
+    for kind in ("up", "ups", "holder"):
+        for wait in (True, False):
+            first = [J("a", 1), J("b", 2, [("a", kind)])]
+            second = [J("a_", 1, code=1)] + ([W("a_")] if wait else []) + [J("b_", 2, [("a_", kind)]), J("c", 3, [("b_", "ups")]), J("d", 4)]
+            out.append(sc(f"rerun:{kind}:{'known' if wait else 'racing'}", "rerun:fail", [[XP("xp", first), {"op": "rmjob", "var": "a"}, XP("xp", second)]],
+                          ambiguous=[3]))
+    return out
